@@ -12,10 +12,14 @@
    where `swf` is exactly the invariant of the Rust type (u32 / u64 ranges, array lengths, curve points and proofs the library
    accepts, Tweak range) — weaker than the consensus codec's canonicity `wf`, so these theorems also cover values that are not
    consensus-canonical (e.g. an input whose index carries flag bits).  `C20_serde_canonical_*` restate them under the codecs' `wf`.
-   They hold for every curve-point oracle `pt_ok`.  The derived PartiallySignedTransaction serde is generated code and is not covered. *)
+   They hold for every curve-point oracle `pt_ok`.
+   The serde_derive-generated impls of the PSET types (PartiallySignedTransaction, pset::Global, TxData, Input, Output, raw::Key, ProprietaryKey,
+   SchnorrSig, ControlBlock) and the serde_utils helpers are codecs assembled from combinators over the field tables regenerated from the source
+   (Model/SerdePset.v); `SLawful c` is: for both views, every well-formed value deserializes back from its own serialization.  Dependency leaves
+   (bitcoin::PublicKey, XOnlyPublicKey, schnorr::Signature, KeySource, Xpub, bitcoin::Transaction) and pset::TapTree enter through a round-trip premise. *)
 From Coq Require Import List NArith Bool.
 From Coq.Strings Require Import Byte.
-From EV Require Import Base.Bytes Base.Codec Gen.Tables Model.Tx Model.Block Model.Text Model.Serde Proofs.Text Proofs.Serde Proofs.SerdeBridge.
+From EV Require Import Base.Bytes Base.Codec Gen.Tables Model.Tx Model.Block Model.Text Model.Serde Model.SerdePset Proofs.Text Proofs.Serde Proofs.SerdeBridge Proofs.SerdePset.
 Import ListNotations.
 Open Scope N_scope.
 
@@ -170,6 +174,80 @@ Theorem C20_serde_canonical_Block : forall b, wf (c_block pt_ok maxvec cap_txin 
 Proof. intros b H. apply C20_serde_Block. eapply br_block; exact H. Qed.
 End C20_SERDE.
 
+(* ================================================================ Part B, continued: the derived PSET serde ================================================================ *)
+(* the combinators: Option, Vec, tuples, plain maps, the three serde_utils map encodings, hex_bytes, and a serde_derive struct over ANY field list
+   with distinct names whose field codecs are lawful (unknown keys skipped, repeated keys rejected, missing fields rejected unless Option) *)
+Theorem C20_serde_derived_struct : forall name F, nodup_names (map fst F) = true -> Forall SLawful (map snd F) -> SLawful (sc_struct name F).
+Proof. exact struct_lawful. Qed.
+Theorem C20_serde_option : forall c, SLawful c -> SNonNull c -> SLawful (sc_option c).                  Proof. exact option_lawful. Qed.
+Theorem C20_serde_vec : forall c, SLawful c -> SLawful (sc_vec c).                                        Proof. exact vec_lawful. Qed.
+Theorem C20_serde_tuple : forall cs, Forall SLawful cs -> SLawful (sc_tuple cs).                          Proof. exact tuple_lawful. Qed.
+Theorem C20_serde_btreemap : forall kc vc, SLawful kc -> SLawful vc -> SLawful (sc_map kc vc).            Proof. exact map_lawful. Qed.
+Theorem C20_serde_btreemap_as_seq : forall kc vc, SLawful kc -> SLawful vc -> SLawful (sc_map_as_seq kc vc).  Proof. exact map_as_seq_lawful. Qed.
+Theorem C20_serde_btreemap_byte_values : forall kc, SLawful kc -> SLawful (sc_map_byte_values kc).        Proof. exact map_byte_values_lawful. Qed.
+Theorem C20_serde_btreemap_as_seq_byte_values : forall kc, SLawful kc -> SLawful (sc_map_as_seq_byte_values kc).  Proof. exact map_as_seq_byte_values_lawful. Qed.
+Theorem C20_serde_hex_bytes : SLawful sc_hexbytes.                                                        Proof. exact hexbytes_lawful. Qed.
+
+Section C20_PSET_SERDE.
+Variable pt_ok : bytes -> bool.
+Variables maxvec cap_txin cap_txout cap_vecu8 : N.
+Variable leaf_ser : bytes -> bool -> bytes -> sval.
+Variable leaf_de : bytes -> bool -> sval -> res bytes.
+Variable leaf_ok : bytes -> bytes -> bool.
+(* premise (trusted, checked on the real crate by every `ps` case): the dependency's own Serialize / Deserialize round-trip, and never write null *)
+Hypothesis leaf_roundtrip : forall kind hr b, leaf_ok kind b = true -> leaf_de kind hr (view hr (leaf_ser kind hr b)) = Ok b.
+Hypothesis leaf_not_null : forall kind hr b, leaf_ok kind b = true -> view hr (leaf_ser kind hr b) <> VUnit.
+Local Notation PSET := (sc_pset pt_ok maxvec cap_txin cap_txout cap_vecu8 leaf_ser leaf_de leaf_ok).
+
+(* every field of every derived struct has a codec (a field added to the Rust struct without a model counterpart makes this false) *)
+Theorem C20_pset_fields_known :
+  fields_known (table0 leaf_ser leaf_de leaf_ok) pset_serde_TxData = true /\ fields_known (table0 leaf_ser leaf_de leaf_ok) pset_serde_Key = true /\
+  fields_known (table0 leaf_ser leaf_de leaf_ok) pset_serde_ProprietaryKey = true /\ fields_known (table0 leaf_ser leaf_de leaf_ok) pset_serde_SchnorrSig = true /\
+  fields_known (table0 leaf_ser leaf_de leaf_ok) pset_serde_ControlBlock = true /\
+  fields_known (table1 pt_ok maxvec cap_txin cap_txout cap_vecu8 leaf_ser leaf_de leaf_ok) pset_serde_Global = true /\
+  fields_known (table1 pt_ok maxvec cap_txin cap_txout cap_vecu8 leaf_ser leaf_de leaf_ok) pset_serde_Input = true /\
+  fields_known (table1 pt_ok maxvec cap_txin cap_txout cap_vecu8 leaf_ser leaf_de leaf_ok) pset_serde_Output = true /\
+  fields_known (table2 pt_ok maxvec cap_txin cap_txout cap_vecu8 leaf_ser leaf_de leaf_ok) pset_serde_PartiallySignedTransaction = true.
+Proof. vm_compute. repeat split; reflexivity. Qed.
+
+Theorem C20_serde_pset_TxData : SLawful (sc_txdata leaf_ser leaf_de leaf_ok).                   Proof. apply txdata_lawful; assumption. Qed.
+Theorem C20_serde_pset_raw_Key : SLawful (sc_rawkey leaf_ser leaf_de leaf_ok).                  Proof. apply rawkey_lawful; assumption. Qed.
+Theorem C20_serde_pset_ProprietaryKey : SLawful (sc_propkey leaf_ser leaf_de leaf_ok).          Proof. apply propkey_lawful; assumption. Qed.
+Theorem C20_serde_SchnorrSig : SLawful (sc_schnorrsig leaf_ser leaf_de leaf_ok).                Proof. apply schnorrsig_lawful; assumption. Qed.
+Theorem C20_serde_ControlBlock : SLawful (sc_controlblock leaf_ser leaf_de leaf_ok).            Proof. apply controlblock_lawful; assumption. Qed.
+Theorem C20_serde_pset_Global : SLawful (sc_global pt_ok maxvec cap_txin cap_txout cap_vecu8 leaf_ser leaf_de leaf_ok).
+Proof. apply global_lawful; assumption. Qed.
+Theorem C20_serde_pset_Input : SLawful (sc_input pt_ok maxvec cap_txin cap_txout cap_vecu8 leaf_ser leaf_de leaf_ok).
+Proof. apply input_lawful; assumption. Qed.
+Theorem C20_serde_pset_Output : SLawful (sc_output pt_ok maxvec cap_txin cap_txout cap_vecu8 leaf_ser leaf_de leaf_ok).
+Proof. apply output_lawful; assumption. Qed.
+(* the property's sentence for PSETs: any number of inputs and outputs, every subset of the fields, maps of any size *)
+Theorem C20_serde_PartiallySignedTransaction : forall x, s_wf PSET x = true ->
+  s_de PSET true (json_view (s_ser PSET true x)) = Ok x /\ s_de PSET false (cbor_view (s_ser PSET false x)) = Ok x.
+Proof. intros x W. assert (L : SLawful PSET) by (apply pset_lawful; assumption). split; [exact (L true x W)|exact (L false x W)]. Qed.
+End C20_PSET_SERDE.
+
+(* non-vacuity: a PSET with one input and one output in which every optional field is absent and every map empty is well-formed for the codec,
+   and this is its JSON key order (no dependency leaf occurs, so the leaf oracle can be anything) *)
+Definition default_of (key : bytes) : fval :=
+  if starts_with "Option<"%lb key then FOpt None else if starts_with "BTreeMap<"%lb key then FList [] else if starts_with "Vec<"%lb key then FList []
+  else if starts_with "Txid|"%lb key then FB (repeat x00 32) else if starts_with "Script|"%lb key then FB [x51] else FN 2.
+Definition default_fields (l : list (bytes * bytes)) : list fval := map (fun nk => default_of (snd nk)) l.
+Definition no_leaf_ser (_ : bytes) (_ : bool) (_ : bytes) : sval := VUnit.
+Definition no_leaf_de (_ : bytes) (_ : bool) (_ : sval) : res bytes := Err [].
+Definition no_leaf_ok (_ _ : bytes) : bool := false.
+Definition tiny_pset : fval :=
+  FTup [ FTup (FTup (default_fields pset_serde_TxData) :: tl (default_fields pset_serde_Global));
+         FList [FTup (default_fields pset_serde_Input)]; FList [FTup (default_fields pset_serde_Output)] ].
+Example C20_serde_pset_example :
+  let c := sc_pset (fun _ => true) 4000000 1000 1000 1000 no_leaf_ser no_leaf_de no_leaf_ok in
+  s_wf c tiny_pset = true /\ s_de c true (json_view (s_ser c true tiny_pset)) = Ok tiny_pset /\
+  match json_view (s_ser c true tiny_pset) with
+  | VMap [(VStr g, VMap ((VStr td, VMap ((VStr v1, VU64 2) :: _)) :: (VStr v2, VU64 2) :: _)); (VStr i, VSeq [_]); (VStr o, VSeq [_])] =>
+      bytes_eqb g "global"%lb && bytes_eqb td "tx_data"%lb && bytes_eqb v1 "version"%lb && bytes_eqb v2 "version"%lb && bytes_eqb i "inputs"%lb && bytes_eqb o "outputs"%lb
+  | _ => false end = true.
+Proof. vm_compute. repeat split; reflexivity. Qed.
+
 (* what the views are, on a small transaction output; and that the byte swap is really there *)
 Example C20_serde_examples :
   json_view (ser_value true (VExplicit 1)) = VSeq [VU64 1; VU64 72057594037927936] /\
@@ -226,3 +304,10 @@ Check (C20_serde_TxOutSecrets : forall s, swf_secrets s = true ->
   de_secrets true (json_view (ser_secrets true s)) = Ok s /\ de_secrets false (cbor_view (ser_secrets false s)) = Ok s).
 Check (C20_serde_canonical_Transaction : forall pt_ok maxvec cap_txin cap_txout cap_vecu8 t, wf (c_tx pt_ok maxvec cap_txin cap_txout cap_vecu8) t = true ->
   de_tx pt_ok true (json_view (ser_tx true t)) = Ok t /\ de_tx pt_ok false (cbor_view (ser_tx false t)) = Ok t).
+Check (C20_serde_PartiallySignedTransaction : forall pt_ok maxvec cap_txin cap_txout cap_vecu8 leaf_ser leaf_de leaf_ok,
+  (forall kind hr b, leaf_ok kind b = true -> leaf_de kind hr (view hr (leaf_ser kind hr b)) = Ok b) ->
+  (forall kind hr b, leaf_ok kind b = true -> view hr (leaf_ser kind hr b) <> VUnit) ->
+  forall x, s_wf (sc_pset pt_ok maxvec cap_txin cap_txout cap_vecu8 leaf_ser leaf_de leaf_ok) x = true ->
+  s_de (sc_pset pt_ok maxvec cap_txin cap_txout cap_vecu8 leaf_ser leaf_de leaf_ok) true (json_view (s_ser (sc_pset pt_ok maxvec cap_txin cap_txout cap_vecu8 leaf_ser leaf_de leaf_ok) true x)) = Ok x /\
+  s_de (sc_pset pt_ok maxvec cap_txin cap_txout cap_vecu8 leaf_ser leaf_de leaf_ok) false (cbor_view (s_ser (sc_pset pt_ok maxvec cap_txin cap_txout cap_vecu8 leaf_ser leaf_de leaf_ok) false x)) = Ok x).
+Check (C20_serde_derived_struct : forall name F, nodup_names (map fst F) = true -> Forall SLawful (map snd F) -> SLawful (sc_struct name F)).
